@@ -1,0 +1,228 @@
+//go:build verif
+
+package tendermint
+
+// Contracts for gocv (contract-based deductive verification, /verif).
+// Each rule of the Tendermint algorithm is stated over the process state; the vote counter's
+// answers are abstract predicates (its thresholds are verified in consensus/votecounter).
+
+// ---- the vote counter seen from the state machine (assumed contracts) ------------------------
+//@ ghost func quorumFor(round types.Round, voteType votecounter.VoteType, idIsNil bool, id _) bool
+//@ ghost func quorumAny(round types.Round, voteType votecounter.VoteType) bool
+//@ extern func github.com/NethermindEth/juno/consensus/votecounter.(*VoteCounter).HasQuorumForVote
+//@   ensures result == quorumFor(round, voteType, id == nil, *id)
+//@ extern func github.com/NethermindEth/juno/consensus/votecounter.(*VoteCounter).HasQuorumForAny
+//@   ensures result == quorumAny(round, voteType)
+//@ extern func github.com/NethermindEth/juno/consensus/votecounter.(*VoteCounter).AddProposal
+//@   modifies *v
+//@   modifies maps
+//@ extern func github.com/NethermindEth/juno/consensus/votecounter.(*VoteCounter).AddPrevote
+//@   logged
+//@   modifies *v
+//@   modifies maps
+//@ extern func github.com/NethermindEth/juno/consensus/votecounter.(*VoteCounter).AddPrecommit
+//@   logged
+//@   modifies *v
+//@   modifies maps
+//@ extern func github.com/NethermindEth/juno/consensus/votecounter.(*VoteCounter).StartNewHeight
+//@   modifies *v
+//@   modifies maps
+//@ extern func github.com/NethermindEth/juno/consensus/votecounter.(*VoteCounter).Proposer
+//@ extern func github.com/NethermindEth/juno/consensus/votecounter.(*VoteCounter).GetProposal
+//@ extern func github.com/NethermindEth/juno/consensus/votecounter.(*VoteCounter).HasNonFaultyFutureMessage
+
+// heightFresh: no round of the current height has been started yet.
+//@ ghost var heightFresh bool
+
+// ---- sending votes: one prevote and one precommit per (height, round) ------------------------
+// A prevote is only ever sent from the propose step and moves the process to the prevote step;
+// the step returns to propose only when a round not used before at this height is started.
+//@ func (*stateMachine).setStepAndSendPrevote
+//@   props C12
+//@   arith int
+//@   requires s != nil
+//@   requires once_per_round: s.state.step == types.StepPropose
+//@   modifies s.state.step, s.voteCounter
+//@   modifies maps
+//@   assigns calls_AddPrevote, arg_AddPrevote_prevote
+//@   ensures step: s.state.step == types.StepPrevote
+//@   ensures msg: istype(result, *actions.BroadcastPrevote) && cast(result, *actions.BroadcastPrevote) != nil && fresh(cast(result, *actions.BroadcastPrevote))
+//@   ensures vote: cast(result, *actions.BroadcastPrevote).ID == id && cast(result, *actions.BroadcastPrevote).Round == old(s.state.round) && cast(result, *actions.BroadcastPrevote).Height == old(s.state.height)
+//@   ensures counted: calls_AddPrevote == old(calls_AddPrevote) + 1
+
+//@ func (*stateMachine).setStepAndSendPrecommit
+//@   props C12
+//@   arith int
+//@   requires s != nil
+//@   requires once_per_round: s.state.step == types.StepPrevote
+//@   modifies s.state.step, s.voteCounter
+//@   modifies maps
+//@   assigns calls_AddPrecommit, arg_AddPrecommit_precommit
+//@   ensures step: s.state.step == types.StepPrecommit
+//@   ensures msg: istype(result, *actions.BroadcastPrecommit) && cast(result, *actions.BroadcastPrecommit) != nil && fresh(cast(result, *actions.BroadcastPrecommit))
+//@   ensures vote: cast(result, *actions.BroadcastPrecommit).ID == id && cast(result, *actions.BroadcastPrecommit).Round == old(s.state.round) && cast(result, *actions.BroadcastPrecommit).Height == old(s.state.height)
+//@   ensures counted: calls_AddPrecommit == old(calls_AddPrecommit) + 1
+
+//@ func (*stateMachine).resetState
+//@   props C12
+//@   arith int
+//@   requires s != nil
+//@   modifies s.state.round, s.state.step, s.state.timeoutPrevoteScheduled, s.state.lockedValueAndOrValidValueSet, s.state.timeoutPrecommitScheduled
+//@   ensures s.state.round == round && s.state.step == types.StepPropose
+
+// ---- line 22: first proposal -----------------------------------------------------------------------
+// Prevote for the value only if it is valid and the process is not locked on something else.
+//@ func (*stateMachine).doFirstProposal
+//@   props C12
+//@   arith int
+//@   requires s != nil && cachedProposal != nil && cachedProposal.ID != nil
+//@   requires upon: s.state.step == types.StepPropose && cachedProposal.ValidRound == -1
+//@   modifies s.state.step, s.voteCounter
+//@   modifies maps
+//@   assigns calls_AddPrevote, arg_AddPrevote_prevote
+//@   ensures lock_rule: cast(result, *actions.BroadcastPrevote).ID != nil ==> cachedProposal.Valid && (old(s.state.lockedRound) == -1 || (old(s.state.lockedValue) != nil && (*old(s.state.lockedValue)).Hash() == *cachedProposal.ID))
+//@   ensures for_the_proposal: cast(result, *actions.BroadcastPrevote).ID == nil || cast(result, *actions.BroadcastPrevote).ID == cachedProposal.ID
+//@   ensures step: s.state.step == types.StepPrevote
+//@   ensures counted: calls_AddPrevote == old(calls_AddPrevote) + 1
+
+// ---- line 28: proposal with a polka from an earlier round ---------------------------------------
+// Prevote for the value only if valid and (lockedRound <= validRound or locked on the same value):
+// the only way to prevote against one's lock is a polka in a later-or-equal round.
+//@ func (*stateMachine).doProposalAndPolkaPrevious
+//@   props C12
+//@   arith int
+//@   requires s != nil && cachedProposal != nil && cachedProposal.ID != nil
+//@   requires upon: s.state.step == types.StepPropose && cachedProposal.ValidRound >= 0 && cachedProposal.ValidRound < s.state.round && quorumFor(cachedProposal.ValidRound, votecounter.Prevote, false, *cachedProposal.ID)
+//@   modifies s.state.step, s.voteCounter
+//@   modifies maps
+//@   assigns calls_AddPrevote, arg_AddPrevote_prevote
+//@   ensures lock_rule: cast(result, *actions.BroadcastPrevote).ID != nil ==> cachedProposal.Valid && (old(s.state.lockedRound) <= cachedProposal.ValidRound || (old(s.state.lockedValue) != nil && (*old(s.state.lockedValue)).Hash() == *cachedProposal.ID))
+//@   ensures for_the_proposal: cast(result, *actions.BroadcastPrevote).ID == nil || cast(result, *actions.BroadcastPrevote).ID == cachedProposal.ID
+//@   ensures step: s.state.step == types.StepPrevote
+//@   ensures counted: calls_AddPrevote == old(calls_AddPrevote) + 1
+
+// ---- line 36: proposal with a polka in the current round ------------------------------------------
+// Precommit the value (and lock on it) only from the prevote step, with a polka for it and a
+// valid proposal; always record it as the valid value.
+//@ func (*stateMachine).doProposalAndPolkaCurrent
+//@   props C12
+//@   arith int
+//@   requires s != nil && cachedProposal != nil && cachedProposal.ID != nil
+//@   requires upon: cachedProposal.Valid && s.state.step >= types.StepPrevote && !s.state.lockedValueAndOrValidValueSet && quorumFor(s.state.round, votecounter.Prevote, false, *cachedProposal.ID)
+//@   modifies s.state.step, s.state.lockedValue, s.state.lockedRound, s.state.validValue, s.state.validRound, s.state.lockedValueAndOrValidValueSet, s.voteCounter
+//@   modifies maps
+//@   assigns calls_AddPrecommit, arg_AddPrecommit_precommit
+//@   ensures precommit_and_lock: old(s.state.step) == types.StepPrevote ==> istype(result, *actions.BroadcastPrecommit) && cast(result, *actions.BroadcastPrecommit).ID == cachedProposal.ID && s.state.lockedValue == cachedProposal.Value && s.state.lockedRound == s.state.round && s.state.step == types.StepPrecommit
+//@   ensures no_second_precommit: old(s.state.step) != types.StepPrevote ==> result == nil && s.state.step == old(s.state.step) && s.state.lockedValue == old(s.state.lockedValue) && s.state.lockedRound == old(s.state.lockedRound)
+//@   ensures counted: (old(s.state.step) == types.StepPrevote ==> calls_AddPrecommit == old(calls_AddPrecommit) + 1) && (old(s.state.step) != types.StepPrevote ==> calls_AddPrecommit == old(calls_AddPrecommit))
+//@   ensures valid_value: s.state.validValue == cachedProposal.Value && s.state.validRound == s.state.round && s.state.lockedValueAndOrValidValueSet
+
+// ---- line 44: polka for nil ---------------------------------------------------------------------------
+//@ func (*stateMachine).doPolkaNil
+//@   props C12
+//@   arith int
+//@   requires s != nil
+//@   requires upon: s.state.step == types.StepPrevote
+//@   modifies s.state.step, s.voteCounter
+//@   modifies maps
+//@   assigns calls_AddPrecommit, arg_AddPrecommit_precommit
+//@   ensures nil_vote: cast(result, *actions.BroadcastPrecommit).ID == nil && s.state.step == types.StepPrecommit
+//@   ensures counted: calls_AddPrecommit == old(calls_AddPrecommit) + 1
+
+// ---- line 49: commit --------------------------------------------------------------------------------------
+// A value is committed only if valid and with a precommit quorum for it in the proposal's round;
+// the process then moves to a fresh height with no lock.
+//@ func (*stateMachine).doCommitValue
+//@   props C12
+//@   arith int
+//@   requires s != nil && cachedProposal != nil && cachedProposal.ID != nil
+//@   requires upon: cachedProposal.Valid && quorumFor(cachedProposal.Round, votecounter.Precommit, false, *cachedProposal.ID)
+//@   requires s.state.height < (1<<64) - 1
+//@   modifies s.state.height, s.state.lockedRound, s.state.lockedValue, s.state.validRound, s.state.validValue, s.state.round, s.state.step, s.state.timeoutPrevoteScheduled, s.state.lockedValueAndOrValidValueSet, s.state.timeoutPrecommitScheduled, s.isHeightStarted, s.voteCounter
+//@   modifies maps
+//@   sets heightFresh = true
+//@   ensures commit: istype(result, *actions.Commit) && cast(result, *actions.Commit) == &cachedProposal.Proposal
+//@   ensures next_height: s.state.height == old(s.state.height) + 1 && s.state.round == 0 && s.state.step == types.StepPropose && !s.isHeightStarted
+//@   ensures unlocked: s.state.lockedRound == -1 && s.state.lockedValue == nil && s.state.validRound == -1 && s.state.validValue == nil
+
+// ---- rounds ----------------------------------------------------------------------------------------------
+//@ func (Application).Valid
+//@ func (Application).Value
+//@ extern func github.com/NethermindEth/juno/consensus/votecounter.(*VoteCounter).HasFuturePrecommitQuorum
+
+//@ func (*stateMachine).sendProposal
+//@   props C12
+//@   arith int
+//@   requires s != nil
+//@   modifies s.voteCounter
+//@   modifies maps
+//@   ensures msg: istype(result, *actions.BroadcastProposal) && cast(result, *actions.BroadcastProposal).Value == value && cast(result, *actions.BroadcastProposal).Round == s.state.round && cast(result, *actions.BroadcastProposal).Height == s.state.height && cast(result, *actions.BroadcastProposal).ValidRound == s.state.validRound
+
+// A round is started only if it was not used before at this height: a later round, or the
+// first round of a fresh height. This is what makes "step == propose" mean "no prevote sent yet
+// in this (height, round)".
+//@ func (*stateMachine).startRound
+//@   props C12
+//@   arith int
+//@   requires s != nil
+//@   requires unused_round: r > s.state.round || heightFresh
+//@   modifies s.state.round, s.state.step, s.state.timeoutPrevoteScheduled, s.state.lockedValueAndOrValidValueSet, s.state.timeoutPrecommitScheduled, s.voteCounter
+//@   modifies maps
+//@   sets heightFresh = false
+//@   ensures started: s.state.round == r && s.state.step == types.StepPropose
+//@   ensures proposes_valid_value_first: istype(result, *actions.BroadcastProposal) && old(s.state.validValue) != nil ==> cast(result, *actions.BroadcastProposal).Value == old(s.state.validValue)
+
+//@ func (*stateMachine).doSkipRound
+//@   props C12
+//@   arith int
+//@   requires s != nil
+//@   requires upon: futureR > s.state.round
+//@   modifies s.state.round, s.state.step, s.state.timeoutPrevoteScheduled, s.state.lockedValueAndOrValidValueSet, s.state.timeoutPrecommitScheduled, s.voteCounter
+//@   modifies maps
+//@   sets heightFresh = false
+//@   ensures s.state.round == futureR && s.state.step == types.StepPropose
+
+// ---- timeouts ---------------------------------------------------------------------------------------------
+//@ func (*stateMachine).onTimeoutPropose
+//@   props C12
+//@   arith int
+//@   requires s != nil
+//@   modifies s.state.step, s.voteCounter
+//@   modifies maps
+//@   assigns calls_AddPrevote, arg_AddPrevote_prevote
+//@   ensures only_from_propose: calls_AddPrevote != old(calls_AddPrevote) ==> old(s.state.step) == types.StepPropose && old(s.state.height) == timeout.Height && old(s.state.round) == timeout.Round
+//@   ensures nil_vote: result != nil ==> len(result) == 2 && cast(result[1], *actions.BroadcastPrevote).ID == nil
+
+//@ func (*stateMachine).onTimeoutPrevote
+//@   props C12
+//@   arith int
+//@   requires s != nil
+//@   modifies s.state.step, s.voteCounter
+//@   modifies maps
+//@   assigns calls_AddPrecommit, arg_AddPrecommit_precommit
+//@   ensures only_from_prevote: calls_AddPrecommit != old(calls_AddPrecommit) ==> old(s.state.step) == types.StepPrevote && old(s.state.height) == timeout.Height && old(s.state.round) == timeout.Round
+//@   ensures nil_vote: result != nil ==> len(result) == 2 && cast(result[1], *actions.BroadcastPrecommit).ID == nil
+
+//@ func (*stateMachine).onTimeoutPrecommit
+//@   props C12
+//@   arith int
+//@   requires s != nil && timeout.Round < (1<<63) - 1
+//@   modifies s.state.round, s.state.step, s.state.timeoutPrevoteScheduled, s.state.lockedValueAndOrValidValueSet, s.state.timeoutPrecommitScheduled, s.voteCounter
+//@   modifies maps
+//@   assigns heightFresh
+//@   ensures next_round: result != nil ==> s.state.round == old(s.state.round) + 1
+
+// ---- the rule dispatcher: every rule fires only under its "upon" condition --------------------------
+//@ func (*stateMachine).findProposal
+//@   trusted
+//@   ensures result != nil ==> result.ID != nil && fresh(result) && result.Value != nil
+
+//@ func (*stateMachine).process
+//@   props C12
+//@   arith int
+//@   requires s != nil && s.state.height < (1<<64) - 1
+//@   modifies s.state.height, s.state.lockedRound, s.state.lockedValue, s.state.validRound, s.state.validValue, s.state.round, s.state.step, s.state.timeoutPrevoteScheduled, s.state.lockedValueAndOrValidValueSet, s.state.timeoutPrecommitScheduled, s.isHeightStarted, s.voteCounter
+//@   modifies maps
+//@   assigns heightFresh, calls_AddPrevote, arg_AddPrevote_prevote, calls_AddPrecommit, arg_AddPrecommit_precommit
+//@   ensures one_prevote_at_most: calls_AddPrevote == old(calls_AddPrevote) || (calls_AddPrevote == old(calls_AddPrevote) + 1 && old(s.state.step) == types.StepPropose)
+//@   ensures one_precommit_at_most: calls_AddPrecommit == old(calls_AddPrecommit) || (calls_AddPrecommit == old(calls_AddPrecommit) + 1 && old(s.state.step) == types.StepPrevote)
